@@ -683,8 +683,12 @@ func (p *Project) gwFile() string {
 	var sb strings.Builder
 	sb.WriteString("SID,DATE,Level\n")
 	sb.WriteString("900," + p.date(p.GWSeries[0].Date) + ",15\n")
-	for _, g := range p.GWSeries {
+	// other wells in the same file, same dates, other levels: identifiers that begin / end with the requested one
+	for i, g := range p.GWSeries {
+		sb.WriteString(fmt.Sprintf("%s7,%s,%s\n", p.Soil.ID, p.date(g.Date), hundredth(g.Dm100/2+100)))
 		sb.WriteString(fmt.Sprintf("%s,%s,%s\n", p.Soil.ID, p.date(g.Date), hundredth(g.Dm100)))
+		sb.WriteString(fmt.Sprintf("%s0,%s,%s\n", p.Soil.ID, p.date(g.Date), hundredth(g.Dm100+750+100*(i%3))))
+		sb.WriteString(fmt.Sprintf("1%s,%s,%s\n", p.Soil.ID, p.date(g.Date), hundredth(g.Dm100/3+150)))
 	}
 	return sb.String()
 }
